@@ -21,7 +21,8 @@ def alphabet(mido):
             M('sysex', data=()),
             M('sysex', data=(1, 2)),
             M('clock'),
-            M('songpos', pos=300)]
+            M('songpos', pos=300),
+            M('tune_request')]
 
 
 def compositions(n, max_cuts=None):
@@ -191,14 +192,28 @@ def check_addresses(mido, acc, ports):
                           {'kind': 'address-bad', 'text': bad})
 
 
-def check_burst(mido, tshim, acc, n, how):
+def burst_message(mido, content, j):
+    M = mido.Message
+    if content == 'notes':
+        return M('note_on', channel=j % 16, note=j % 128,
+                 velocity=1 + (j // 128) % 100)
+    if content == 'same-note':
+        return M('note_on', channel=0, note=0, velocity=64)
+    if content == 'tune':
+        return M('tune_request')
+    return (M('tune_request'), M('clock'), M('sysex', data=(j % 128,)),
+            M('note_on', note=j % 128), M('note_on', note=j % 128),
+            M('songpos', pos=j), M('sysex', data=()))[j % 7]
+
+
+def check_burst(mido, tshim, acc, n, how, content='notes'):
     """n complete messages written at once, then the peer disconnects:
     every one must still be handed out (internal batch limits sit at such
     sizes)."""
     a, b = socket.socketpair()
     acc.evals += 1
     acc.nontrivial += 1
-    case = {'kind': 'burst', 'n': n, 'how': how}
+    case = {'kind': 'burst', 'n': n, 'how': how, 'content': content}
     sleeps = [0]
 
     def on_sleep(sec):
@@ -209,10 +224,8 @@ def check_burst(mido, tshim, acc, n, how):
     port = None
     try:
         port = mido.sockets.SocketPort('peer', 1, conn=a)
-        data = b''.join(bytes(mido.Message('note_on', channel=j % 16,
-                                           note=j % 128,
-                                           velocity=1 + (j // 128) % 100)
-                              .bytes()) for j in range(n))
+        msgs = [burst_message(mido, content, j) for j in range(n)]
+        data = b''.join(bytes(m.bytes()) for m in msgs)
         b.sendall(data)
         b.close()
         got = []
@@ -226,10 +239,10 @@ def check_burst(mido, tshim, acc, n, how):
                 got.append(m)
         else:
             got = list(port.iter_pending()) + list(port.iter_pending())
-        if sigs(got) != sigs(mido.parse_all(list(data))):
-            acc.violation(f'burst/{how}',
-                          f'{n} messages then disconnect, drained with {how}: '
-                          f'received {len(got)}', case)
+        if sigs(got) != sigs(msgs):
+            acc.violation(f'burst/{how}/{content}',
+                          f'{n} messages ({content}) then disconnect, drained '
+                          f'with {how}: received {len(got)}', case)
     except Horizon:
         acc.violation(f'burst/{how}/never-ended', f'{n} messages', case)
     except Exception as e:
@@ -518,6 +531,10 @@ def worker(shard):
                   1366):
             for how in ('iterate', 'poll', 'iter_pending'):
                 check_burst(mido, tshim, acc, n, how)
+        for n in (2, 3, 7, 64, 300, 1400):
+            for content in ('same-note', 'tune', 'mixed'):
+                for how in ('iterate', 'poll', 'iter_pending'):
+                    check_burst(mido, tshim, acc, n, how, content)
         for nm in (0, 1, 3):
             for ns in (1, 2, 3):
                 check_send_after_disconnect(mido, tshim, acc, nm, ns)
@@ -550,7 +567,7 @@ def run():
     rep.coverage['rule'] = (
         f'SocketPort over socket.socketpair(): every sequence of <= 2 '
         f'messages over {{note_on, program_change, sysex(), sysex(1,2), '
-        f'clock, songpos}} (and '
+        f'clock, songpos, tune_request}} (and '
         f'{"every" if thorough else "a quarter of the"} sequences of 3) x '
         f'every cut offset 0..len x every segmentation of the bytes before '
         f'the cut (all 2^(n-1) for <= 8 bytes, <= 2 segment boundaries '
@@ -590,7 +607,8 @@ def check_case(case):
         check_send_after_disconnect(mido, tshim, acc, case['nmsgs'],
                                     case['nsends'])
     elif k == 'burst':
-        check_burst(mido, tshim, acc, case['n'], case['how'])
+        check_burst(mido, tshim, acc, case['n'], case['how'],
+                    case.get('content', 'notes'))
     elif k == 'server-burst':
         check_server_burst(mido, tshim, acc, tuple(case['counts']))
     elif k.startswith('address'):
